@@ -302,6 +302,7 @@ func tomaGen(r *RNG, id string, windows bool) *Case {
 	c.SetInt("start", start).SetInt("end", end).SetBool("pad", r.Bool())
 	c.SetInt("wrap", r.PickInt([]int{-1, -1, 1, 7, 60, len(sc.ref), len(sc.ref) + 2}))
 	c.SetInt("threads", r.PickInt([]int{1, 2, 4, 16}))
+	maybeCLI(r, c, 6)
 	return c
 }
 
@@ -360,7 +361,12 @@ func execTopa(r *RNG, c *Case) {
 	defer os.RemoveAll(dir)
 	refTxt := renderFasta([]string{c.Get("rname") + " reference"}, []string{c.Get("ref")}, randLayout(r))
 	if isCLI(c) {
-		args := []string{"sam", "toPairAlign", "-s", "{dir}/a.sam", "-r", "{dir}/r.fa", "-o", "{dir}/out", "-t", c.Get("threads")}
+		toStdout := idSeed(c.ID)%2 == 0
+		outArg := "{dir}/out"
+		if toStdout {
+			outArg = "stdout"
+		}
+		args := []string{"sam", "toPairAlign", "-s", "{dir}/a.sam", "-r", "{dir}/r.fa", "-o", outArg, "-t", c.Get("threads")}
 		for _, kv := range [][2]string{{"wrap", "--wrap"}, {"start", "--start"}, {"end", "--end"}} {
 			if atoi(c.Get(kv[0])) != -1 {
 				args = append(args, kv[1], c.Get(kv[0]))
@@ -371,6 +377,42 @@ func execTopa(r *RNG, c *Case) {
 		}
 		if c.Get("omitins") == "1" {
 			args = append(args, "--skip-insertions")
+		}
+		if toStdout {
+			// all pairs on standard output, in input order: cut the stream back into one text per query
+			res := viaCLINoFile(map[string]string{"a.sam": txt, "r.fa": refTxt}, args)
+			if res.status == "ok" {
+				per := 2
+				if c.Get("omitref") == "1" {
+					per = 1
+				}
+				var groups []string
+				var cur strings.Builder
+				nrec := 0
+				lastID := ""
+				flush := func() {
+					if cur.Len() > 0 {
+						groups = append(groups, lastID+"\n"+cur.String())
+						cur.Reset()
+					}
+				}
+				for _, line := range strings.SplitAfter(res.out, "\n") {
+					if strings.HasPrefix(line, ">") {
+						if nrec == per {
+							flush()
+							nrec = 0
+						}
+						nrec++
+						lastID = strings.Fields(strings.TrimPrefix(strings.TrimSpace(line), ">") + " x")[0]
+					}
+					cur.WriteString(line)
+				}
+				flush()
+				res.out = strings.Join(groups, sepFS)
+			}
+			c.Set("go", goField(res))
+			c.Tag("topa-stdout")
+			return
 		}
 		c.Set("go", goField(viaCLI(map[string]string{"a.sam": txt, "r.fa": refTxt}, "", args, func(d string) (string, error) {
 			var parts []string
